@@ -1,6 +1,7 @@
 """C09 — UDP datagrams: boundaries, payload, source and destination preserved."""
 from common import *
 from engine import run_sim_check
+import schedcheck
 from sockcases import *
 
 THEOREMS = ["sendto_all_or_nothing", "sendto_failure_reported", "recvfrom_faithful"]
@@ -9,12 +10,13 @@ THEOREMS = ["sendto_all_or_nothing", "sendto_failure_reported", "recvfrom_faithf
 def generate(rnd, tier):
     k = {"quick": 1000, "thorough": 12000, "search": 3000}[tier]
     cases = [gen_udp_case(rnd, i, tier) for i in range(k)]
-    try:
-        import drivercases
-        cases += drivercases.generate_udp_async(rnd, tier)
-    except ImportError:
-        pass
-    return cases
+    import drivercases as dc
+    k2 = {"quick": 250, "thorough": 2500, "search": 600}[tier]
+    ac = [dc.gen_async_case(rnd, i, "udp") for i in range(k2)]
+    for j, c in enumerate(ac):
+        c.id = "%s-%d" % (c.id, j)
+        c.meta["profile"] = {"timeout": 0.1, "pipe": 0.05, "sendtoerr": 0.2, "recvfromerr": 0.1}
+    return cases + dc.grow(ac, dc.chooser, rnd)
 
 
 def project(tr):
@@ -24,8 +26,10 @@ def project(tr):
             out.append((c, a))
         elif c == 20 and a[0] in (25, 26, 33):
             out.append((c, a[:3] if a[1] == 0 else a))
-        elif c in (21, 22, 23) :
+        elif c in (21, 22):
             out.append((c, a))
+        elif c == 20 and a[0] in (62, 41):
+            out.append((c, a[:3] if a[1] == 0 else a))
         elif c in (90, 98):
             out.append((c, a))
         elif c == 99:
@@ -90,15 +94,14 @@ def monitor(c, tr):
     exp = [a[2] for a in rf_events if a[0] >= 0]
     if got != exp[:len(got)]:
         return "reported datagram sources %s, kernel delivered %s" % (got, exp[:len(got)])
-    try:
-        import drivercases
-        return drivercases.monitor_udp_async(c, tr)
-    except ImportError:
-        return None
+    if c.meta.get("kind") == "async":
+        import drivercases as dc
+        return dc.monitor_async(c, tr)
+    return None
 
 
 SPEC = {
-    "id": "C09", "module": "Properties_C09", "theorems": THEOREMS, "harness": "sim",
+    "id": "C09", "extra": schedcheck.extra_stage(("udpsend", "handlersend"), [schedcheck.mon_udp]), "module": "Properties_C09", "theorems": THEOREMS, "harness": "sim",
     "generate": generate, "project": project, "nontrivial_key": nontrivial_key, "monitor": monitor,
     "distribution": distribution,
     "rule": "SendTo/ReceiveFrom histories on basic and buffered UDP sockets: datagram sizes {0,1,100,1472,65507}, receive buffers {1,8,100,1472,65507}, "
